@@ -41,3 +41,51 @@ func VerifC10_q_multiIPPod() {
 	}
 	verifReach("housekeeping-done")
 }
+
+
+// BOUND: cloud provider configured; topology 0; a statefulset pod (symbolic policy) bound on n1, finished (event handled) and deleted (its delete event still pending = late event of the old incarnation); the same-named pod is re-created (new UID), filtered, and its Bind on any approved node among n1,n5 runs while, as a second logical thread starting inside any one window of that Bind (API-server, provider or IPAM call; symbolic window 0..14), the late event is handled; the second thread parks wherever it needs the pod key lock Bind holds and continues when Bind releases it
+func VerifC10_q_bindVsLateEvent() {
+	w := vpNewWorld(0, true)
+	if err := w.configure(); err != nil {
+		return
+	}
+	w.wrapIPAM()
+	w.setStatefulSet(3)
+	policy := nondetPick("", "immutable", "never")
+	name := "ss-0"
+	w.createPod(vpMakePod(name, "U1", vpKindSts, policy, "", ""))
+	w.syncListers()
+	nodes, err := w.filter(name, "n1", "n5", "n3")
+	if err != nil || len(nodes) == 0 {
+		return
+	}
+	if w.bind(name, nodes[0]) != nil {
+		return
+	}
+	w.setRunning(name)
+	w.syncListers()
+	w.finishPod(name)
+	w.syncListers()
+	for len(w.pending) > 0 {
+		_ = w.handleEvent(0)
+	}
+	w.deletePod(name) // the late event
+	w.syncListers()
+	w.createPod(vpMakePod(name, "U2", vpKindSts, policy, "", ""))
+	w.syncListers()
+	nodes2, err := w.filter(name, "n1", "n5", "n3")
+	if err != nil || len(nodes2) == 0 || len(w.pending) == 0 {
+		return
+	}
+	w.interferer = func() { _ = w.handleEvent(0) }
+	w.windowAt = nondetInt(0, 14)
+	berr := w.bind(name, nodes2[nondetChoice(len(nodes2))])
+	w.finishInterference()
+	if w.interferer != nil || berr != nil {
+		return
+	}
+	w.setRunning(name)
+	w.syncListers()
+	verifReach("late-event-overlapped-bind")
+	w.checkAll("C10", "a late event of the old incarnation handled while the new incarnation was being bound")
+}
